@@ -16,7 +16,7 @@ import ast
 
 from .. import nodewalk, paths, tables
 from ..model import AnalysisError, Project, self_attr, walk_no_nested
-from ..report import Result
+from ..report import Result, ctx_of
 from .common import site, src, range_guard_ok
 
 PROP = 'C15'
@@ -39,6 +39,7 @@ def run(p: Project, tier: str) -> Result:
     r.rule('C15.R7', 'policy names and IN/OUT are wired to the right selector and edge list', 6)
     r.not_decided = ['which of several reservations triggers first within one instant (kernel ordering)']
     for w in nodewalk.walks(p):
+        r.ctx = ctx_of(w)
         r.paths += w.npaths
         check_selectors(p, w, r)
         check_routing(p, w, r)
@@ -57,9 +58,8 @@ def check_consult_sites(p, r):
     handed to a consuming builtin - only inside the per-item selector functions.  A consultation anywhere else (constructor, reset, statistics) consumes an
     answer that routes no item: the callable is then consulted more often than once per item and a generator's sequence is shifted."""
     r.rule('C15.R8', 'the user policy is consulted only inside the per-item selector functions', 1)
-    raw = p.raw()
     n_sites = 0
-    for ci in sorted(raw.classes.values(), key=lambda c: (c.module, c.name)):
+    for ci in sorted(p.classes.values(), key=lambda c: (c.module, c.name)):
         if not ci.module.startswith('nodes/'):
             continue
         for fname, fi in sorted(ci.methods.items()):
